@@ -1,0 +1,33 @@
+//go:build verif
+
+package btree
+
+import "golang.org/x/exp/constraints"
+
+// VerifNode is one node of the tree as the verification hook VerifShape reports it: the keys of its
+// entries in slot order and, for an internal node, the child below each entry.
+type VerifNode[K constraints.Ordered] struct {
+	Keys     []K
+	Children []*VerifNode[K]
+}
+
+// VerifShape is a verification hook (build tag verif): it exposes the node structure of the tree
+// (keys per node, children per internal entry) together with the tree height, so that the structural
+// invariant of the B-tree (node fill, separators, uniform depth) can be checked on the real data.
+func (t *BTree[K, V]) VerifShape() (*VerifNode[K], int) {
+	var walk func(n *node[K, V], height int) *VerifNode[K]
+	walk = func(n *node[K, V], height int) *VerifNode[K] {
+		if n == nil {
+			return nil
+		}
+		out := &VerifNode[K]{}
+		for i := 0; i < n.m && i < len(n.children); i++ {
+			out.Keys = append(out.Keys, n.children[i].key)
+			if height > 0 {
+				out.Children = append(out.Children, walk(n.children[i].next, height-1))
+			}
+		}
+		return out
+	}
+	return walk(t.root, t.height), t.height
+}
